@@ -1,3 +1,4 @@
+import BalmProofs.DriversSpec
 import Balm
 import BalmProofs.AttrTest
 import BalmProofs.Bfs
